@@ -25,8 +25,14 @@ Obs(o) == IF o.ok
                 M |-> [r \in 1..Len(o.P) |-> Meta(o.M[r])], tags |-> Tags(o.tags), tip |-> o.tip, nrevs |-> o.nrevs]
           ELSE [ok |-> FALSE, P |-> <<>>, T |-> <<>>, M |-> <<>>, tags |-> {}, tip |-> 0, nrevs |-> 0]
 
+\* SHA record: emitted objects and id lists become sets
+Sha(s) == IF s.ok
+          THEN [s EXCEPT !.emit = [r \in 1..Len(s.emit) |-> {[id |-> s.emit[r][i].id, refs |-> SetOf(s.emit[r][i].refs)] : i \in DOMAIN s.emit[r]}],
+                         !.full = [r \in 1..Len(s.full) |-> SetOf(s.full[r])],
+                         !.commits = SetOf(s.commits)]
+          ELSE s
 Failed(row) == LET h == Hist(row.c) IN
-    CASE row.kind = "native" -> GitFailed(h, Obs(row.o.rt)) \cup ShaFailed(h, row.o.sha)
+    CASE row.kind = "native" -> GitFailed(h, Obs(row.o.rt)) \cup Git2Failed(h, Obs(row.o.rt2)) \cup ShaFailed(h, Sha(row.o.sha))
       [] row.kind = "git"    -> IF LawGitOrigin(h, row.o) THEN {} ELSE {"origin"}
       [] row.kind = "fast"   -> FastFailed(h, Obs(row.o))
 
